@@ -335,3 +335,61 @@ def digraphs(n):
 
 def digraph_from_mask(n, mask):
     return tuple((b // n, b % n) for b in range(n * n) if (mask >> b) & 1)
+
+
+# ---------------------------------------------------------------- n-ary and/or families
+
+def nary_props(leaves=LEAVES4, arities=(3,)):
+    """('and'|'or', l1, .., lk) for every k in arities over the leaves."""
+    out = []
+    for k in arities:
+        for combo in itertools.product(leaves, repeat=k):
+            for op in ('and', 'or'):
+                out.append((op,) + combo)
+    return out
+
+
+def nary_ctl(leaves=LEAVES4):
+    """CTL formulas containing a 3-ary and/or: bare, under every unary operator, as either operand
+    of every binary operator (other operand a leaf), and 3-ary over one-operator operands."""
+    base = nary_props(leaves)
+    out = list(base)
+    for a in base:
+        for op in CTL_UN:
+            out.append(_ctl_un(op, a))
+    small = [b for i, b in enumerate(base) if i % 5 == 0]
+    for a in small:
+        for l in leaves[:2]:
+            for op in CTL_BIN:
+                out.append(_ctl_bin(op, a, l))
+                out.append(_ctl_bin(op, l, a))
+    one = ctl_by_size(1, leaves[:2])
+    for i, x in enumerate(one):
+        for l1 in leaves[:2]:
+            for op in ('and', 'or'):
+                out.append((op, x, l1, leaves[1]))
+                out.append((op, l1, x, leaves[0]))
+                out.append((op, l1, leaves[0], x))
+    return out
+
+
+def nary_path(leaves=LEAVES4):
+    base = nary_props(leaves)
+    out = list(base)
+    for a in base:
+        for op in PATH_UN:
+            out.append((op, a))
+    small = [b for i, b in enumerate(base) if i % 5 == 0]
+    for a in small:
+        for l in leaves[:2]:
+            for op in PATH_BIN:
+                out.append((op, a, l))
+                out.append((op, l, a))
+    one = path_by_size(1, leaves[:2])
+    for x in one:
+        for l1 in leaves[:2]:
+            for op in ('and', 'or'):
+                out.append((op, x, l1, leaves[1]))
+                out.append((op, l1, x, leaves[0]))
+                out.append((op, l1, leaves[0], x))
+    return out
